@@ -345,8 +345,8 @@ def _c11_jobs(tier):
                         seconds=2 if q else 15, lookers=4))
         out.append(dict(mode=m, shards=1 if q else 4, cases=2 if q else 6, part='subrace', cfgname='subscription-race',
                         lookers=4, specs=120 if q else 300))
-        out.append(dict(mode=m, shards=2 if q else 4, cases=1 if q else 4, part='mutrace', cfgname='mutation-window-race',
-                        lookers=3, mutations=200 if q else 1200))
+        out.append(dict(mode=m, shards=2 if q else 4, cases=1 if q else 2, part='mutrace', cfgname='mutation-window-race',
+                        lookers=3, mutations=200 if q else 600, timeout_s=900 if q else 3000))
     # sanitizer legs (c only): the same scripted product without the monitor's retention and with the
     # dict-free-list flood, so that a cache dictionary released during a callback really reaches free()
     vg_shards = 6 if q else 16
